@@ -884,3 +884,68 @@ Check line_convert_sound_script_partial. Check line_convert_plain_class.
 Check line_convert_tombstone_witnesses.
 Check line_convert_sound_script.
 Check line_convert_is_replay. Check line_convert_replay_is_script. Check line_convert_emits_meaning.
+
+(* ---- follow-up: two conjuncts of C13's script_ok derived for the event script (Proofs/ConvertLineInv.v): the private
+   row's line register stays below 2^64 and, for maximum_operations_per_instruction = 1, its op_index stays 0 — an
+   invariant of LineRow::execute and reset threaded through read_row; so every Row event of the iteration started
+   from ConvertLineProgram::new's state has line < 2^64 and (max_ops = 1) op_index = 0. Any bytes, both build modes. *)
+Require GV.Proofs.ConvertLineInv.
+Theorem line_convert_events_lines_bounded : forall dbg be sx h c,
+  ConvertLine.cl_row c = LineRd.row_new h ->
+  Forall (ConvertLineInv.ev_ok h) (fst (fst (ConvertLine.events dbg be sx h c))).
+Proof. exact ConvertLineInv.events_rows_bounded. Qed.
+Theorem line_convert_events_op_index_zero : forall dbg be sx h c w,
+  ConvertLine.cl_row c = LineRd.row_new h -> LineSpec.h_max_ops h = 1 ->
+  In (ConvertLine.CRRow w) (fst (fst (ConvertLine.events dbg be sx h c))) ->
+  LineWr.w_op_index w = 0 /\ LineWr.w_line w < two64.
+Proof.
+  intros dbg be sx h c w E M Hin.
+  pose proof (ConvertLineInv.events_rows_bounded dbg be sx h c E) as F.
+  rewrite Forall_forall in F. destruct (F _ Hin) as [A B]. split; [exact (B M)|exact A].
+Qed.
+Check line_convert_events_lines_bounded. Check line_convert_events_op_index_zero.
+
+(* a third conjunct of script_ok: every Row / EndSequence offset of the iteration is a multiple of the converted
+   program's minimum_instruction_length (or that length is 1) — any bytes, any state, both build modes *)
+Theorem line_convert_events_offsets_aligned : forall dbg be sx h c,
+  Forall (ConvertLineInv.ev_aligned (LineWr.le_min_len (LineWr.p_lenc (ConvertLine.cl_prog c))))
+         (fst (fst (ConvertLine.events dbg be sx h c))).
+Proof. exact ConvertLineInv.events_offsets_aligned. Qed.
+Check line_convert_events_offsets_aligned.
+
+(* script_ok reduced to a first-order predicate on the event list (Proofs/ConvertLineScript.v evs_ok: offsets
+   non-decreasing within a sequence, multiples of minimum_instruction_length, below 2^64; line below 2^64; op_index 0)
+   for maximum_operations_per_instruction = 1. Of these, line / op_index (line_convert_events_lines_bounded,
+   _op_index_zero) and the alignment (line_convert_events_offsets_aligned) are proved invariants of read_row.
+   MISSING for line_convert_emits_meaning_closed: "offsets non-decreasing within a sequence and <= the address mask"
+   — it holds only outside the F10 class (after rows, a DW_LNE_set_address -1 followed by end_sequence makes the
+   converter restart at offset 0 WITHOUT an EndSequence event: the writer then sees a decreasing offset), so it needs
+   the instruction-scan lock-step of ConvertLineSim (not threaded in the 30 minutes). *)
+Require GV.Proofs.ConvertLineScript.
+Theorem line_convert_script_ok_of_events : forall e l,
+  LineWr.le_max_ops l = 1 -> 1 <= LineWr.le_min_len l -> LineWr.le_min_len l <> 0 ->
+  forall evs prev b opi,
+  opi = 0 -> LineWr.w_op_index prev = 0 -> LineWr.w_line prev < two64 ->
+  LineWr.w_address_offset prev mod LineWr.le_min_len l = 0 ->
+  ConvertLineScript.evs_ok (LineWr.le_min_len l) (LineWr.w_address_offset prev) evs ->
+  LineWrSeqProofs.script_ok e l prev b (ConvertLineReplay.script_of opi evs).
+Proof. exact ConvertLineScript.evs_script_ok. Qed.
+
+Theorem line_convert_emits_meaning_evs : forall dbg be sx h c evs cf,
+  let p := ConvertLine.cl_prog c in
+  LineWr.p_insns p = [] -> LineWr.p_prev p = LineWr.wrow_initial (LineWr.p_enc p) (LineWr.p_lenc p) ->
+  LineWr.p_row p = LineWr.wrow_initial (LineWr.p_enc p) (LineWr.p_lenc p) -> LineWr.p_in_seq p = false ->
+  LineWrProofs.enc_ok (LineWr.p_lenc p) -> LineWr.le_max_ops (LineWr.p_lenc p) = 1 ->
+  (LineWr.e_version (LineWr.p_enc p) <= 5)%N ->
+  ConvertLine.events dbg be sx h c = (evs, LineRd.SEnd, cf) ->
+  ConvertLineScript.evs_ok (LineWr.le_min_len (LineWr.p_lenc p)) 0 evs ->
+  exists q',
+    ConvertLine.convert dbg be sx h (fun a => Some (LineWr.AConst a)) c =
+      (if LineWr.p_in_seq q' then Err CMissingLineEndSequence else Ok (ConvertLineReplay.reprog q' cf)) /\
+    Forall LineWrProofs.special_ok (LineWr.p_insns q') /\
+    LineAdvSpec.rows_of (LineWr.params_of (LineWr.p_lenc p))
+      (map (LineWr.denote (LineWr.e_version (LineWr.p_enc p))) (LineWr.p_insns q')) =
+      fst (LineWrSeqProofs.meaning (LineWr.e_version (LineWr.p_enc p)) (LineWr.params_of (LineWr.p_lenc p))
+             (LineAdvSpec.init_regs (LineWr.params_of (LineWr.p_lenc p)), 0%N) (ConvertLineReplay.script_of 0 evs)).
+Proof. exact ConvertLineScript.convert_emits_meaning_evs. Qed.
+Check line_convert_script_ok_of_events. Check line_convert_emits_meaning_evs.
